@@ -22,6 +22,9 @@ type Push struct {
 	Title    string  `json:"title"` // org.opencontainers.image.title
 	Entries  []Entry `json:"entries,omitempty"`
 	Checksum string  `json:"checksum,omitempty"` // io.deis.oras.content.digest: "" absent | ok | bad
+	// Fail makes the push itself fail while the content is copied: digest (descriptor names another digest) |
+	// short (fewer bytes than Size) | long (more bytes than Size) | reader (the reader fails half-way)
+	Fail string `json:"fail,omitempty"`
 }
 
 // Case is one sandboxed execution.
@@ -30,6 +33,7 @@ type Case struct {
 	Fix    string `json:"fixed_by,omitempty"`
 	Prepop string `json:"prepop"`           // empty | d | ds | sub | full (see prepopParts)
 	RelWD  bool   `json:"rel_wd,omitempty"` // file.New gets a path relative to the process directory
+	Chain  bool   `json:"chain,omitempty"`  // working directory = $ROOT/e1/e2/wd, e1 and e2 otherwise empty (instead of $ROOT/a/wd)
 	Pushes []Push `json:"pushes"`
 }
 
@@ -133,7 +137,7 @@ func seqEntries(seq []int) []Entry {
 
 // ---- titles --------------------------------------------------------------
 
-var titleSegs = []string{"..", ".", "", "x", "in", "up", "wd"}
+var titleSegs = []string{"..", ".", "", "x", "in", "up", "wd", "wd.lock", "wd-backup"}
 
 const titleForms = 3 // relative | $WD/… | $ROOT/a/…
 const titleKinds = 2 // blob | archive
@@ -182,6 +186,36 @@ func titleCase(i int) Case {
 	return Case{Prepop: prepop, Pushes: []Push{p}}
 }
 
+// ---- failing pushes ----------------------------------------------------------
+
+var failModes = []string{"digest", "short", "long", "reader"}
+var failTitles = []string{"f.txt", "a/f.txt", "a/b/c.txt", "$WD/a/b/c.txt", "./a//b/c.txt", "pkg/d/n/f.txt"}
+var failPrepops = []string{"empty", "absent", "d"}
+
+// failCount: every (title, failure mode, kind, layout, pre-population) combination.
+func failCount() int { return len(failTitles) * len(failModes) * 2 * 2 * len(failPrepops) }
+
+// failCase: ONE push that fails while its content is copied — after the store
+// has made the directories (and, for a named blob, the file) for it.
+func failCase(i int) Case {
+	t := failTitles[i%len(failTitles)]
+	i /= len(failTitles)
+	f := failModes[i%len(failModes)]
+	i /= len(failModes)
+	kind := i % 2
+	i /= 2
+	chain := i%2 == 0
+	i /= 2
+	c := Case{Prepop: failPrepops[i%len(failPrepops)], Chain: chain}
+	p := Push{Kind: "blob", Title: t, Fail: f}
+	if kind == 1 {
+		p = Push{Kind: "archive", Title: t, Fail: f, Entries: []Entry{dir(join(t, "zd")), reg(join(t, "zd/z"))}}
+	}
+	// a second, successful push shows that the store still works where it should
+	c.Pushes = []Push{p, {Kind: "blob", Title: "after/ok.txt"}}
+	return c
+}
+
 // ---- random / mutated sequences over the full vocabulary -------------------
 
 var nameSegs = []string{"d", "s", "f", "x", "o", "e", "h", "y", "new", "outdir", "victim", "sub", "up", "in"}
@@ -190,7 +224,8 @@ var nameSegs = []string{"d", "s", "f", "x", "o", "e", "h", "y", "new", "outdir",
 // (a new file next to the working directory, a new file in an existing outside directory): a link to
 // those dangles, and whatever is written through it is a creation.
 var tails = []string{"victim", "victim2", "outdir", "outdir/new", "new", "", "cwd/secret", "pkg", "pkg/keep", "a/victim", "secret",
-	"outdir/newfile", "created.txt", "new2", "pkg/created.txt", "sub/newfile", "cwd/newfile"}
+	"outdir/newfile", "created.txt", "new2", "pkg/created.txt", "sub/newfile", "cwd/newfile",
+	"wd.lock", "wd-backup/x", "wd-backup", "a/wd.lock"}
 var randTitles = []string{"pkg", "pkg", "pkg", "pkg", "pkg", "pkg", "pkg/sub2", ".", "sub/outdir", "sub/pkg", "in/pkg", "$WD/pkg", "p/q", "pkg/", "./pkg", "outdir"}
 
 func pick[T any](rng *rand.Rand, xs []T) T { return xs[rng.IntN(len(xs))] }
@@ -485,14 +520,21 @@ func genFollowUp(rng *rand.Rand, c Case) Push {
 	case r < 90:
 		title = join(abs, pick(rng, []string{"new", "outdir", "outdir/new"}))
 	default:
-		title = pick(rng, []string{"../victim", "$ROOT/a/victim", "pkg2", "", ".", "$WD", "$WD/../victim", "pkg/../../victim"})
+		title = pick(rng, []string{"../victim", "$ROOT/a/victim", "pkg2", "", ".", "$WD", "$WD/../victim", "pkg/../../victim",
+			"../wd.lock", "../wd-backup/x", "../wd-backup", "$WD.lock", "$WD-backup/x", "$WD-backup", "$ROOT/a/wd.lock", "$ROOT/a/wd-backup/new", "../wdx", "pkg/../../wd.lock"})
 	}
 	title = safe(title)
+	fail := ""
+	if rng.IntN(6) == 0 {
+		fail = pick(rng, failModes)
+	}
 	switch r := rng.IntN(100); {
 	case r < 55:
-		return Push{Kind: "blob", Title: title}
+		return Push{Kind: "blob", Title: title, Fail: fail}
 	case r < 90:
-		return genArchive(rng, title, 1+rng.IntN(3))
+		a := genArchive(rng, title, 1+rng.IntN(3))
+		a.Fail = fail
+		return a
 	default:
 		return Push{Kind: "restore", Title: title}
 	}
@@ -506,7 +548,7 @@ func genRandCase(rng *rand.Rand, multi bool) Case {
 		}
 		return c
 	}
-	c := Case{Prepop: genPrepop(rng), RelWD: rng.IntN(8) == 0}
+	c := Case{Prepop: genPrepop(rng), RelWD: rng.IntN(8) == 0, Chain: rng.IntN(8) == 0}
 	title := pick(rng, randTitles)
 	c.Pushes = []Push{genArchive(rng, title, 1+rng.IntN(10))}
 	if multi {
@@ -695,6 +737,9 @@ func targetClass(l string) string {
 func (c Case) pattern() string {
 	var b strings.Builder
 	b.WriteString(c.Prepop)
+	if c.Chain {
+		b.WriteString("^")
+	}
 	if c.RelWD {
 		b.WriteString("~")
 	}
@@ -710,7 +755,7 @@ func (c Case) pattern() string {
 			seen[n] = i
 			fmt.Fprintf(&b, "%s%s%s%s,", e.T[:1], targetClass(e.N)[:1], reuse, targetClass(e.L))
 		}
-		b.WriteString("]" + p.Checksum)
+		b.WriteString("]" + p.Checksum + p.Fail)
 	}
 	return b.String()
 }
